@@ -126,6 +126,15 @@ def plan_for_source(kind, src, tier, rnd, idx):
     nconf = 3 if tier == "quick" else 24
     for _ in range(nconf):
         cases.append(Case(cid(), kind, src, gen_flags(rnd), gen_filters(rnd), rnd.choice(["rdx", "rdx", "rd", "rx", "r"])))
+    # component selections that rely on default enabling (D unset, o "first named, others by default", n blacklist / other order) and
+    # an interfering load under another selection between the two loads that must be identical (i); see harness/h_snapshots.c
+    if kind != "X":
+        variants = ["D", "o", "n"]
+        rnd.shuffle(variants)
+        for v in (variants[:2] if tier == "quick" else variants * 3):
+            cases.append(Case(cid(), kind, src, gen_flags(rnd) if rnd.random() < 0.5 else 0, gen_filters(rnd) if rnd.random() < 0.4 else NOFILT,
+                              rnd.choice(["rdx", "rd", "r"]) + v + ("i" if rnd.random() < 0.7 else ""), cls="selection"))
+    cases.append(Case(cid(), kind, src, 0, NOFILT, "ri", cls="selection"))
     # fault sequences
     rem = removable(src)
     if not rem:
